@@ -1213,9 +1213,76 @@ func (r *Resolver) answer(ctx context.Context, req, resp *dns.Msg, parentDS []dn
 		}
 	}
 
+	// clearAdditional replaces the authority's OPT by the one that was sent to
+	// it. What the authority declared about its answer's audience (RFC 7871
+	// SCOPE PREFIX-LENGTH) has to survive that: without it the cache files a
+	// subnet-tailored answer as global and serves it to every client.
+	scope := authorityECSScope(req, resp)
+	if targetMsg != nil {
+		scope = max(scope, authorityECSScope(req, targetMsg))
+	}
 	resp = r.clearAdditional(req, resp, extra...)
+	keepECSScope(resp, scope)
 
 	return resp, nil
+}
+
+// authorityECSScope returns the SCOPE PREFIX-LENGTH m declares for the client
+// subnet req carried, or 0: when either message has no ECS option, or m's
+// option does not echo the family, source prefix length and address that
+// were sent (RFC 7871 §7.3 - such a response says nothing about this query).
+func authorityECSScope(req, m *dns.Msg) uint8 {
+	sent := subnetOption(req)
+	got := subnetOption(m)
+	if sent == nil || got == nil || got == sent {
+		return 0
+	}
+	if got.Family != sent.Family || got.SourceNetmask != sent.SourceNetmask || !got.Address.Equal(sent.Address) {
+		return 0
+	}
+	return got.SourceScope
+}
+
+func subnetOption(m *dns.Msg) *dns.EDNS0_SUBNET {
+	if m == nil {
+		return nil
+	}
+	opt := m.IsEdns0()
+	if opt == nil {
+		return nil
+	}
+	for _, o := range opt.Option {
+		if s, ok := o.(*dns.EDNS0_SUBNET); ok {
+			return s
+		}
+	}
+	return nil
+}
+
+// keepECSScope stamps scope on the ECS option of resp's OPT. That OPT is the
+// request's own record, shared with the caller and with concurrent attempts,
+// so the response gets a copy.
+func keepECSScope(resp *dns.Msg, scope uint8) {
+	if scope == 0 {
+		return
+	}
+	for i, rr := range resp.Extra {
+		opt, ok := rr.(*dns.OPT)
+		if !ok {
+			continue
+		}
+		for j, o := range opt.Option {
+			if s, ok := o.(*dns.EDNS0_SUBNET); ok && s.SourceScope != scope {
+				cp := *opt
+				cp.Option = append([]dns.EDNS0(nil), opt.Option...)
+				sc := *s
+				sc.SourceScope = scope
+				cp.Option[j] = &sc
+				resp.Extra[i] = &cp
+				return
+			}
+		}
+	}
 }
 
 func (r *Resolver) authority(ctx context.Context, req, resp *dns.Msg, parentDS []dns.RR, zone string) (*dns.Msg, error) {
